@@ -618,7 +618,7 @@ func C18(c *vk.Ctx) {
 	c.Set("transitions", int64(len(g.Edges)))
 	c.Set("tlc_generated", res.Generated)
 	c.Set("exhaustive", true)
-	c.Set("spec", "CrlStore.tla (Keys=2, Vals=2, Disk, Prepared=4): invariants TypeOK LookupExact FailClosed, properties ReplaceWhole Frame")
+	c.Set("spec", "CrlStore.tla (Keys=2, Vals=2, Disk, Prepared=4): invariants TypeOK LookupExact FailClosed, properties ReplaceWhole Frame; CrlStores.tla (2 stores of one base path, 2 temporary stores alive): Isolation, StagedStable")
 	rng := rand.New(rand.NewSource(c.Seed))
 	both := []string{"memory", "disk"}
 	walks := 0
@@ -652,6 +652,8 @@ func C18(c *vk.Ctx) {
 			c.Sample(map[string]any{"kind": "random-walk", "first_ops": opsOf(w, 8), "len": len(w)})
 		}
 	}
+	// 4. several stores of one base path with temporary stores that live across other stores' replacements (CrlStores.tla)
+	walks += c18Stores(c, rng)
 	c.Set("traces_validated_against_impl", int64(walks))
 	c.Set("rule", "a case is one (state, operation) edge of the exported CrlStore graph executed on both real backends with all getters compared to the edge's expect; distinct = distinct edges; walks: covering tour + all sequences of length L + seeded random walks with 5 value-shape variants")
 	c.Assume("value shapes inside a variant (wide/negative/prefix serials, non-ASCII names, zero NextUpdate, nil/0/2^150 CRL number, entry extensions) are sampled by seed, not enumerated")
